@@ -60,5 +60,11 @@ func (r *DecoratorResolver) ResolveIdent(file *ast.File, parent ast.Node, parent
 		return "", nil
 	}
 
+	if obj.Parent() != pkg.Scope() {
+		// not a package-level object (a parameter, a local variable, constant or type, a type
+		// parameter, a label, an imported package name) -> never qualified
+		return "", nil
+	}
+
 	return pkg.Path(), nil
 }
